@@ -134,6 +134,8 @@ func (language *Language) CompilerPasses() compiler.Passes {
 		&compiler.DisjunctionWithNullToOptional{},
 		&compiler.DisjunctionOfConstantsToEnum{},
 		&compiler.AnonymousEnumToExplicitType{},
+		// `1`, `2`: enum constants have to be identifiers
+		&compiler.RenameNumericEnumValues{},
 		&compiler.FlattenDisjunctions{},
 		// flattening can leave `T | null` behind
 		&compiler.DisjunctionWithNullToOptional{},
